@@ -339,3 +339,21 @@ func (st *State) stack() string {
 	}
 	return strings.Join(s, " < ")
 }
+
+
+// History renders the monitor log (verifLog events with concrete values) as "tag=v tag=v ...".
+func (st *State) History() string {
+	var sb strings.Builder
+	for _, l := range st.Log {
+		sb.WriteString(l.Tag)
+		for _, v := range l.Vals {
+			if v.IsConst() {
+				fmt.Fprintf(&sb, "=%d", v.SVal())
+			} else {
+				sb.WriteString("=?")
+			}
+		}
+		sb.WriteByte(' ')
+	}
+	return strings.TrimSpace(sb.String())
+}
